@@ -1084,6 +1084,19 @@ Chunk count: %d`,
 					chunk.verifyDef()
 				}
 				self.metadatasCache = nil
+			} else {
+				// Chunks restored from _stage_defs on re-attach have no
+				// directories if the split finished without a running mrp
+				// having seen it.
+				for _, chunk := range self.chunks {
+					if _, err := os.Stat(chunk.metadata.path); os.IsNotExist(err) {
+						if err := chunk.mkdirs(); err != nil {
+							util.LogError(err, "runtime",
+								"%s: Error making chunk directory.",
+								self.fqname)
+						}
+					}
+				}
 			}
 			if len(self.chunks) > 0 {
 				bindings := getBindings()
